@@ -257,7 +257,7 @@ package beacon
 
 //@ func (*callbackStore).AddCallback(c, id, fn)
 //@   props C12
-//@   flags lockcheck
+//@   flags lockcheck nonblocking
 //@   requires c.newJob != nil && c.callbacks != nil
 //@   ensures [C12:replaced-callback-worker-is-released] old(has(c.newJob, id)) ==> closed(old(c.newJob[id]))
 //@   ensures [C12:one-queue-per-callback-id] has(c.newJob, id) && has(c.callbacks, id) && c.newJob[id] != nil && cap(c.newJob[id]) == CallbackWorkerQueue
